@@ -295,3 +295,6 @@ Proof.
     intros Hc. unfold keys in Hc. rewrite in_map_iff in Hc. destruct Hc as ([k2 l2] & E & Hl). cbn in E. subst k2.
     exact (Hnin (Hupd _ _ Hl)).
 Qed.
+
+Lemma trim_table_get fb k (t : table) : NoDup (keys t) -> tget k (trim_table fb t) = trim_entries fb (tget k t).
+Proof. intros H. rewrite trim_table_tmap. apply tget_tmap; [reflexivity|exact H]. Qed.
